@@ -102,7 +102,43 @@ Theorem C24_chain_cannot_bypass_required_gate : forall pre h a rest codes log,
 Proof. exact chain_required_gate_anywhere. Qed.
 Print Assumptions C24_chain_cannot_bypass_required_gate.
 
+(* ---- histories on one gate instance (replay cache of capacity cap; see model/M_Gates.v hist_step) ---- *)
+(* a presentation the verifier refuses leaves no trace: whatever it carried, the cache is unchanged *)
+Theorem C24_refused_presentation_leaves_no_trace : forall cap m c h n,
+  hdr_verifies h = false -> hist_step cap m c (h, n) = (proof_gate m h, c).
+Proof. exact hist_step_refused_no_trace. Qed.
+Print Assumptions C24_refused_presentation_leaves_no_trace.
+
+(* ... hence deleting all refused presentations from a history changes neither the answers to the others
+   nor the cache *)
+Theorem C24_refused_traffic_changes_no_verdict : forall cap m ps c,
+  hist_run cap m c (kept ps) = (kept_answers ps (fst (hist_run cap m c ps)), snd (hist_run cap m c ps)).
+Proof. exact hist_refused_leave_no_trace. Qed.
+Print Assumptions C24_refused_traffic_changes_no_verdict.
+
+(* a proof accepted once is answered `replayed` when presented again, whatever was refused in between and
+   as long as fewer than cap other proofs verified in between: require mode refuses it (ProofError replayed,
+   so by C24_require_never_calls_inner_after_fail inner is not consulted), allow mode records verified=false *)
+Theorem C24_replay_detected_despite_refused_traffic : forall cap m c n h1 h2 noise,
+  hdr_verifies h1 = true -> hdr_verifies h2 = true -> ~ In n c ->
+  (verifying noise + 1 <= cap)%nat ->
+  exists mid c',
+    hist_run cap m c ((h1, n) :: noise ++ [(h2, n)]) =
+    (proof_gate m (HToken None) :: mid ++ [proof_gate m (HToken (Some RReplayed))], c').
+Proof. exact hist_replay_detected. Qed.
+Print Assumptions C24_replay_detected_despite_refused_traffic.
+
 (* ---- non-vacuity ---- *)
+(* capacity 2: P accepted, five forged tokens with fresh nonces refused, P again: replayed *)
+Example C24_ex_hist_forged_flood :
+  fst (hist_run 2 MRequire [] ((HToken None, 1) :: map (fun k => (HToken (Some RBadMac), k)) [2; 3; 4; 5; 6] ++ [(HToken None, 1)])) =
+  GClaims ok_claims :: map (fun _ => GRaise (XProof RBadMac)) [2; 3; 4; 5; 6] ++ [GRaise (XProof RReplayed)].
+Proof. vm_compute; reflexivity. Qed.
+(* the bound is sharp: capacity 2 and two OTHER accepted proofs in between evict P, its replay verifies *)
+Example C24_ex_hist_bound_sharp :
+  fst (hist_run 2 MRequire [] [(HToken None, 1); (HToken None, 2); (HToken None, 3); (HToken None, 1)]) =
+  [GClaims ok_claims; GClaims ok_claims; GClaims ok_claims; GClaims ok_claims].
+Proof. vm_compute; reflexivity. Qed.
 Definition ex_user : actx := {| a_domain := DUser 7; a_auth := true; a_principal := PUser 9; a_claims := [(KUser 1, CVUser 2)] |}.
 (* valid proof + accepting inner: authenticated as the inner's principal, inner consulted after the gate *)
 Example C24_ex_valid_inner :
